@@ -253,8 +253,51 @@ def r3_forwarding(ctx):
     ctx.ob(init.where, "a genome-wide array holds one run-length array over the concatenated chromosomes", ok, "", key="C09-R3|init")
 
 
+C09_MODS = ["bionumpy.genomic_data.genomic_track", "bionumpy.genomic_data.genomic_data", "bionumpy.genomic_data.genome", "bionumpy.genomic_data.global_offset",
+            "bionumpy.genomic_data.genome_context", "bionumpy.genomic_data.genome_context_base", "bionumpy.arithmetics.intervals", "bionumpy.genomic_data.geometry"]
+
+
+def r4_caches_and_bedgraph(ctx):
+    """(a) a dict that caches derived values across calls (class- or module-level) is keyed by everything the value is computed from: a slice of the
+    global track cached per chromosome NAME is reused for another genome with the same name; (b) bedGraph -> run lengths: both branches build the events
+    and values from the gap-filled starts / values, never from the file's own columns (which have no runs for the gaps)."""
+    from .. import memo
+    mods = [m for m in C09_MODS if m in ctx.index.modules]
+    n = memo.check_dict_caches(ctx, mods, rule_prefix="C09-R4")
+    ctx.count("dict-cache stores examined", n)
+    # class-level mutable containers in the genomic array classes (shared by every instance): none may be filled by a method
+    ix = ctx.index
+    shared = 0
+    for mod in mods:
+        for ci in ix.module(mod).classes.values():
+            for nm, v in ci.attrs.items():
+                if isinstance(v, (ast.Dict, ast.List, ast.Set)) or (isinstance(v, ast.Call) and u(v.func) in ("dict", "list", "set", "defaultdict")):
+                    shared += 1
+                    writers = []
+                    for fi in ci.methods.values():
+                        for x in body_walk(fi.node):
+                            if isinstance(x, ast.Assign) and isinstance(x.targets[0], ast.Subscript) and u(x.targets[0].value) in (f"self.{nm}", f"cls.{nm}", f"self.__class__.{nm}", f"{ci.name}.{nm}"):
+                                writers.append((fi, x))
+                    for fi, x in writers:
+                        reads_self = sorted({a.attr for a in ast.walk(inline_locals(x.value, local_env(fi.node))) if isinstance(a, ast.Attribute) and u(a.value) == "self" and a.attr != nm})
+                        key_reads = sorted({a.attr for a in ast.walk(x.targets[0].slice) if isinstance(a, ast.Attribute) and u(a.value) == "self"})
+                        ok = not [r for r in reads_self if r not in key_reads]
+                        ctx.ob(fi.where, f"`{ci.name}.{nm}` is shared by every instance: a value stored in it may depend on instance state only if that state is part of the key",
+                               ok, f"{u(x)[:120]} reads self.{reads_self}, key names self.{key_reads}", key=f"C09-R4|class-level-cache|{ci.name}|{nm}")
+    ctx.count("class-level mutable containers", shared)
+    f = ix.func("bionumpy.arithmetics.intervals", "GenomicRunLengthArray.from_bedgraph")
+    bg = f.params[1]
+    ev = [n_ for n_ in body_walk(f.node) if isinstance(n_, ast.Assign) and u(n_.targets[0]) in ("events", "values")]
+    ctx.floor("event / value constructions in from_bedgraph", len(ev), 4)
+    for a in ev:
+        cols = {x.attr for x in ast.walk(a.value) if isinstance(x, ast.Attribute) and u(x.value) == bg and x.attr in ("start", "value")}
+        ctx.ob(f.where, f"`{u(a.targets[0])}` of the run-length array is built from the gap-filled starts / values (the bedGraph's own columns have no zero runs for the gaps "
+               "between records)", not cols, u(a), key=f"C09-R4|gap-filled|{u(a.targets[0])}|{sym.canon(a.value)[:60]}")
+
+
 RULES = [
     ("C09-R1", r1_symbolic_lengths),
     ("C09-R2", r2_dense_expansion),
     ("C09-R3", r3_forwarding),
+    ("C09-R4", r4_caches_and_bedgraph),
 ]
